@@ -577,27 +577,37 @@ class UnitResult:
         self.seconds = 0.0
 
 
-def explore(unit, max_paths=4000):
+def explore(unit, max_paths=4000, prefix=()):
+    """enumerate the paths of a unit depth-first by re-execution.  `prefix` fixes the first decisions (used to spread
+    the paths of a heavy unit over several processes: every combination of first decisions is explored by exactly one
+    job; a prefix that names a branch which does not exist yields no path)."""
     res = UnitResult(unit)
     t0 = time.time()
-    decisions: list[int] = []
+    prefix = list(prefix)
+    decisions: list[int] = list(prefix)
     try:
         for modpath, q in unit.functions:
             res.functions.append({"file": modpath, "qualname": q, "sha256": extract.module(modpath).sha(q)})
         while True:
             ctx = Ctx(unit, decisions)
+            ctx.prefix_len = len(prefix)
             ip = Interp(ctx, lib)
             try:
                 unit.run(ip)
             except PathEnd:
                 pass
+            if getattr(ctx, "no_such_branch", False):
+                break  # the prefix names a branch that does not exist: another job covers the real ones
             res.paths += 1
             res.obligations.extend(ctx.obls)
             d, n = ctx.decisions[: ctx.dpos], ctx.choices
             i = len(d) - 1
             while i >= 0 and d[i] + 1 >= n[i]:
                 i -= 1
-            if i < 0:
+            if i < len(prefix):
+                if ctx.dpos < len(prefix) and prefix[ctx.dpos:] != [0] * (len(prefix) - ctx.dpos):
+                    res.paths -= 1  # a path shorter than the prefix is reported by the job whose remaining prefix is all zeros
+                    del res.obligations[len(res.obligations) - len(ctx.obls):]
                 break
             decisions = d[:i] + [d[i] + 1]
             if res.paths >= max_paths:
